@@ -403,6 +403,80 @@ MONITORS = {"wipe": monitor, "ship": monitor}
 REPLAY_EXTRA = "checked"
 
 
+def build_residue(env, suites):
+    """Whole-process residue (harness/src/residue.rs): sender, then receiver, are set up WITHOUT the driver ever holding
+    their secrets in clear, used a little, dropped the ordinary way; before and after the drop every writable mapping of
+    the process except the thread stacks is searched for base nonce and exporter secret.  Same for the KEM shared secret."""
+    g = gen.G(env.rnd)
+    rnd = env.rnd
+    cw = cl.CaseW()
+    for i, (kem, kdf, aead) in enumerate(suites):
+        mode = i % 4
+        s = cw.session(kem, kdf, aead, sid="z%d" % i)
+        nsk = gen.nsk(kem)
+        gen.add_keys(s, g, kem, "kR")
+        gen.add_keys(s, g, kem, "kS")
+        pa = dict(psk=g.rbytes(32), pskid=g.rbytes(5)) if mode in (1, 3) else {}
+        sa = dict(sks="$kS.sk", pks="$kS.pk", **pa) if mode in (2, 3) else dict(pa)
+        ra = dict(pks="$kS.pk", **pa) if mode in (2, 3) else dict(pa)
+        info = g.rbytes(rnd.choice([0, 7, 40]))
+        s.call("setup_s", mode=mode, pkr="$kR.pk", info=info, rng=g.rbytes(nsk), out="S", quiet=1, **sa)
+        for _ in range(rnd.randrange(0, 3)):
+            s.call("export", ctx="S", exctx=g.rbytes(rnd.choice([0, 9])), len=rnd.choice([16, 32, 64]))
+        msgs = 0
+        if aead != 0xFFFF:
+            for _ in range(rnd.randrange(0, 3)):
+                s.call("seal", ctx="S", api=rnd.choice(["alloc", "inplace"]), pt=g.rbytes(rnd.choice([0, 5, 33])), aad=g.rbytes(rnd.choice([0, 4])), out="m%d" % msgs)
+                msgs += 1
+        s.call("residue_scan", ctx="S", role="sender")
+        s.call("setup_r", mode=mode, skr="$kR.sk", enc="$S.enc", info=info, out="R", quiet=1, **ra)
+        for k in range(msgs):
+            if rnd.random() < 0.3:
+                s.call("open", ctx="R", api="alloc", ct="$m%d.full^flip:3" % k if False else "00" * 20, aad="-")   # a rejected delivery first
+            break
+        s.call("export", ctx="R", exctx="-", len=32)
+        s.call("residue_scan", ctx="R", role="receiver")
+        s.call("residue_scan_kem", pkr="$kR.pk", rng=g.rbytes(nsk))
+    return cw
+
+
+def monitor_residue(sess, extra):
+    r = fw.MonResult()
+    for op in sess.ops:
+        if op.op not in ("residue_scan", "residue_scan_kem"):
+            continue
+        if op.ret is None:
+            r.violation("C16:noreturn:%s" % op.op, "%s never returned" % op.id, sess, op)
+            break
+        if op.skipped():
+            r.inconclusive.append("%s skipped: %s" % (op.id, op.skipped()))
+            continue
+        if not op.ok():
+            r.inconclusive.append("%s: %s" % (op.id, op.outcome()))
+            continue
+        r.counts["evaluations"] += 1
+        before = dict(x.split(":", 1) for x in op.ret["before"].split(","))
+        after = dict(x.split(":", 1) for x in op.ret["after"].split(","))
+        for name, where in before.items():
+            if where == "0":
+                # the scan could not see the secret while its owner was alive: nothing can be concluded from "not found"
+                r.counts["blind:%s" % name] += 1
+                r.inconclusive.append("%s: %s was not sighted anywhere before the drop" % (op.id, name))
+        for name, where in after.items():
+            if where != "0":
+                r.violation("C16:residue_in_process:%s:%s" % (name, re.sub(r"\d+x", "", where)),
+                            "after the %s was dropped, its %s still stands in process memory outside any stack: %s (%s build)" % (
+                                {"residue_scan": "context (%s)" % op.args.get("role", "?"), "residue_scan_kem": "KEM shared secret"}[op.op],
+                                {"bn": "base nonce", "es": "exporter secret", "ss": "value"}[name], where, extra), sess, op)
+            else:
+                r.counts["residue_free:%s" % name] += 1
+                r.distinct.add((sess.ids, op.op, op.args.get("role", "-"), name))
+    return r
+
+
+MONITORS["residue"] = monitor_residue
+
+
 def run(env):
     if env.quick():
         suites = [s for i, s in enumerate(gen.suites(sealing_only=False)) if i % 4 == env.seed % 4] + [(0x0012, 3, 2), (0x0020, 1, 0xFFFF)]
@@ -430,6 +504,14 @@ def run(env):
         ru = env.drive("unwind", utext, build=b)
         env.require_complete(ru, "unwind/" + b)
         env.pmap(monitor, ru.sessions, extra=b + "+unwinding", workload="wipe")
+    # copies parked outside the object (statics, thread-locals, leaked or long-lived heap blocks)
+    rsuites = [su for i, su in enumerate(gen.suites(sealing_only=False)) if env.pick(i % 6 == env.seed % 6, True)]
+    rtext = build_residue(env, rsuites).text()
+    for b in ("checked", "checked-std", "fast"):
+        rr = env.drive("residue", rtext, build=b)
+        env.require_complete(rr, "residue/" + b)
+        mr_ = env.pmap(monitor_residue, rr.sessions, extra=b, workload="residue")
+        env.extra_cov["whole_process_scans:%s" % b] = mr_.counts["evaluations"]
     ship = shipping_build_text(first.sessions)
     res = env.drive("ship", ship, build="nohooks-fast")
     env.require_complete(res, "ship")
